@@ -242,6 +242,31 @@ def c04_r2(ctx, f):
 # C05.R1 / R2 the gate
 # ---------------------------------------------------------------------------
 
+class _Soft:
+    """view of a Ctx in which a failed shape obligation is an abstention (used when the exact rule C05.R3 has decided)"""
+
+    def __init__(self, ctx):
+        self._c = ctx
+
+    def __getattr__(self, k):
+        return getattr(self._c, k)
+
+    def check(self, rid, cond, key, where, fn, instance, reason, expected=None, found=None, sample=None):
+        if cond:
+            self._c.ok(rid, sample)
+        else:
+            self._c.abstain(rid, "%s: shape not recognised (%s); decided exactly by C05.R3" % (instance, reason[:80]), where)
+        return cond
+
+    def fail(self, rid, key, where, fn, instance, reason, expected=None, found=None, path=None):
+        self._c.abstain(rid, "%s: shape not recognised (%s); decided exactly by C05.R3" % (instance, reason[:80]), where)
+
+    def anchor_missing(self, rid, what):
+        if rid not in self._c.rules:
+            self._c.rule(rid, "anchor")
+        self._c.abstain(rid, "shape not recognised: %s; decided exactly by C05.R3" % what)
+
+
 def c05_gate(ctx, f):
     r1 = "C05.R1"
     r2 = "C05.R2"
@@ -250,6 +275,10 @@ def c05_gate(ctx, f):
     fn = anchor_fn(ctx, r1, f, "qr::QRCode::new")
     if not fn:
         return
+    # the outcome table decides the gate exactly; the dominance rules below then only cross-check the shape they know
+    from . import rules_geom
+    if rules_geom.c05_r3(ctx, f):
+        ctx = _Soft(ctx)
     cm = fn.calls("placement::create_matrix")
     gets = fn.calls("version::Version::get")
     if len(cm) != 1 or len(gets) != 1:
@@ -896,7 +925,9 @@ def c11_rules(ctx, f):
     sc = [c for c in fn.calls("score::score") if fn.in_loop(c.block)]
     mk = [c for c in fn.calls("datamasking::mask") if fn.in_loop(c.block)]
     if len(sc) != 1 or len(mk) != 1:
-        ctx.anchor_missing(r1, "one score call and one mask call inside the selection loop")
+        for r_ in (r1, r2, r3, r4):
+            ctx.abstain(r_, "mask selection is not a loop containing one datamasking::mask and one score::score call (iterator adaptor, "
+                            "closure or helper): not recognised", where_fn(fn))
         return
     ctx.analysed(fn, 2)
     sc, mk = sc[0], mk[0]
